@@ -42,7 +42,7 @@ class Shard:
         open(self.out_path, 'w').close()
         self.proc = subprocess.Popen(
             [env.PY, '-m', 'vz.worker', self.prop, self.cases_path, self.out_path, str(self.timeout)],
-            cwd=env.VERIF, env=env.child_env(self.pin, {'VERIF_TIER': self.tier}),
+            cwd=env.VERIF, env=env.child_env(self.pin, {'VERIF_TIER': self.tier, 'TMPDIR': self.root}),   # worker scratch lives (and dies) under the run's root
             stdout=subprocess.DEVNULL, stderr=open(self.err_path, 'w'))
 
     def poll(self):
